@@ -315,7 +315,7 @@ class Case:
         # attachments
         self.atts = []
         j = 0
-        for key in ("att1", "att2"):
+        for key in ("att1", "att2", "att3"):
             a = m[key]
             if not a["p"]:
                 continue
@@ -397,12 +397,13 @@ class Case:
             if b["x"] in ("fwd", "both"):
                 root.attach(self._forwarded(pol))
         atts = list(self.atts)
-        if m["nest"] and len(atts) == 2:
+        if m["nest"] and len(atts) >= 2:
             self._add_att(root, atts[0])
             outer = EmailMessage(policy=pol)
             outer.make_mixed()
             outer.attach(root)
-            self._add_att(outer, atts[1])
+            for a in atts[1:]:
+                self._add_att(outer, a)
             return outer
         for a in atts:
             self._add_att(root, a)
@@ -543,9 +544,9 @@ class Case:
         atts = list(self.atts)
         if not atts and not extras:
             return body
-        if m["nest"] and len(atts) == 2:
+        if m["nest"] and len(atts) >= 2:
             inner = MIMEMultipart("mixed", _subparts=[body] + extras + [att_part(atts[0])])
-            return MIMEMultipart("mixed", _subparts=[inner, att_part(atts[1])])
+            return MIMEMultipart("mixed", _subparts=[inner] + [att_part(a) for a in atts[1:]])
         return MIMEMultipart("mixed", _subparts=[body] + extras + [att_part(a) for a in atts])
 
     # ---- headers
@@ -737,15 +738,35 @@ class Case:
             return out, seps
         subj = c.subject or ""
         words = [self.rev_word.get(w, UNKNOWN) for w in re.split(r"[ \t]+", subj) if w != ""]   # DC2
-        atts = []
+        atts, singles = [], []
         for idx, a in enumerate(c.attachments):
             data = a.data.getvalue()
             bt = self.rev_bytes.get(data) or self.rev_bytes_nl.get(data.replace(b"\r\n", b"\n")) or UNKNOWN
             atts.append({"name": self.rev_fn.get((a.filename or "").strip(), UNKNOWN),
                          "type": self.rev_type.get(a.mime_type, UNKNOWN),
                          "bytes": bt, "sup": bool(a.is_supported_mime_type),
-                         "supp": supp_fn(c, idx, bt) if supp_fn else ABSENT,
-                         "pos": a.data.tell()})
+                         "supp": ABSENT, "pos": a.data.tell()})
+            if supp_fn:
+                atts[-1]["supp"], rs = supp_fn(c, idx, bt)
+                singles.append(rs)
+        # ONE call on the whole message: its result list must be the concatenation, in order, of the lists the
+        # attachments yield one by one; suppall = the supp tokens of the attachments found in it
+        suppall = []
+        if supp_fn:
+            try:
+                whole = [(type(r).__name__, r.get_full_text()) for r in c.iterate_supported_attachments()]
+            except Exception:
+                whole = None
+            if whole is None:
+                suppall = [["exc", "?", 0]]
+            else:
+                pos = 0
+                for k, rs in enumerate(singles):
+                    if rs and whole[pos:pos + len(rs)] == rs:
+                        suppall.append(atts[k]["supp"])
+                        pos += len(rs)
+                if pos != len(whole):
+                    suppall.append(UNKNOWN)
         units = list(c.iterate_units())
         full = c.get_full_text()
         # the join law of C03, exactly as mbv/docrun.py observe() states it
@@ -753,7 +774,7 @@ class Case:
         utype = getattr(units[0].get_metadata(), "body_type", "?") if units else "none"
         (pseq, psep), (fseq, fsep) = body_seq(c.body_plain), body_seq(full)
         return {"nunits": len(units), "utype": str(utype), "full": fseq, "fullsep": fsep, "joinok": joinok,
-                "plainsep": psep,
+                "plainsep": psep, "suppall": suppall,
                 "subj": words, "from": box(c.from_email),
                 "to": [box(b) for b in c.to_emails], "cc": [box(b) for b in c.to_cc],
                 "bcc": [box(b) for b in c.to_bcc], "rt": [box(b) for b in c.reply_to],
